@@ -67,6 +67,7 @@ StepAR(e) ==
     LET na == CASE e.op = "new" -> AR!ARInit [] e.op = "sset" -> AR!SASet(arv, e.a, e.b) [] e.op = "sfill" -> AR!SAFill(arv, e.a)
                 [] e.op = "sclear" -> AR!SAClear(arv) [] e.op \in {"demplace", "dpush", "dpushm"} -> AR!DAEmplace(arv, e.a) [] e.op = "dclear" -> AR!DAClear(arv)
                 [] e.op = "bemplace" -> AR!DBEmplace(arv, e.a) [] e.op = "bclear" -> AR!DBClear(arv) [] e.op = "dappend" -> AR!DAAppend(arv)
+                [] e.op = "dchain" -> AR!DAChain(arv, e.a, e.b) [] e.op = "dchaina" -> AR!DAChainArr(arv, e.a)
         r  == IF e.op = "demplace" THEN Len(arv.da) ELSE IF e.op = "bemplace" THEN Len(arv.db) ELSE 0
     IN  IF e.sa # AR!SAIter(na) \/ e.da # na.da \/ e.dai # na.da \/ e.db # na.db \/ e.cnt # Len(na.da) \/ e.r # r
            \/ e.sempty # B(AR!SAEmpty(na)) \/ e.dempty # B(na.da = <<>>)
